@@ -413,7 +413,9 @@ def kernel_crosscheck(cases, expected, tag, shard=250):
     def work(job):
         k, name, path = job
         try:
-            out = sh(["coqc", "-noglob", "-Q", COQ, "MW", "-Q", tmpdir, "KX", path], cwd=tmpdir, timeout=1800)
+            # vm_compute on data of 10^5 elements needs more than the default native stack
+            out = sh("ulimit -s unlimited 2>/dev/null || ulimit -s 8000000 2>/dev/null; exec coqc -noglob -Q %s MW -Q %s KX %s"
+                     % (COQ, tmpdir, path), cwd=tmpdir, timeout=1800)
             results[k] = out
         except BuildError as e:
             results[k] = "ERROR " + str(e)
